@@ -54,9 +54,16 @@ VH_DRIVER(query){
   for(int i=0;i<(g.thorough?60000:6000);++i){ QList l; int n=1+R.below(4); for(int j=0;j<n;++j){ QItem it; it.k=texts[R.below((int)texts.size())]; it.hasv=R.below(3)!=0; if(it.hasv&&R.below(3)) it.v=texts[R.below((int)texts.size())]; if(R.below(10)==0){ int m=R.below(30); for(int q=0;q<m;++q) it.k.push_back(1+R.below(255)); } l.push_back(it);} lists.push_back(l); }
   // zero-slack lists: every character expands fully (worst case reached), empty values, empty keys
   for(int nb=0;nb<2;++nb){ Text full= nb? Text{13,10,13}: Text{'&','=',255}; lists.push_back({{full,true,{}}}); lists.push_back({{{},true,{}}}); lists.push_back({{{},true,full},{full,false,{}}}); lists.push_back({{full,true,full},{{},true,{}},{full,true,{}}}); }
-  size_t total=lists.size()*4; double keep= total*12>(size_t)want? (double)want/(total*12):1.0; long k=0;
-  for(auto&l:lists) for(int sp=0;sp<2;++sp) for(int nb=0;nb<2;++nb){ ++k; if(keep<1.0 && (R.next()%1000000)>=keep*1000000) continue; bool allcaps = (k%5==0)||l.size()<=1; int ep=(int)(k%3);
-    AW(true,k%2,[&]{ compose_events<ApiA>(ar,l,sp,nb,ep,allcaps); },[&]{ compose_events<ApiW>(ar,l,sp,nb,ep,allcaps); }); g.count(jq(l)+std::to_string(sp*2+nb),!l.empty()); if(k%3001==0) g.sample(J().str("list",showq(l)).num("sp",sp).num("nb",nb).done()); }
+  // the line-break state of the escaper inside keys and values: all strings up to length 4 over {CR, LF, space, 'a'} as key and as value;
+  // these come first and are never subsampled (the composed text must dissect back to the list for every flag combination)
+  size_t nmust=0; { std::vector<int> br={13,10,32,'a'}; std::vector<QList> must; int ML=g.thorough?5:4;
+    for(int len=2;len<=ML;++len){ std::vector<int> ix(len,0); while(true){ Text t; for(int i=0;i<len;++i) t.push_back(br[ix[i]]); bool hasbr=false; for(int c:t) if(c==13||c==10) hasbr=true;
+        if(hasbr){ must.push_back({{t,false,{}}}); must.push_back({{T("k"),true,t}}); } int i=len-1; while(i>=0&&++ix[i]==(int)br.size()){ ix[i]=0; --i; } if(i<0) break; } }
+    nmust=must.size(); lists.insert(lists.begin(),must.begin(),must.end()); }
+  size_t total=lists.size()*4; double keep= total*12>(size_t)want? (double)want/(total*12):1.0; long k=0; size_t li=0;
+  for(auto&l:lists){ bool forced= li++<nmust; for(int sp=0;sp<2;++sp) for(int nb=0;nb<2;++nb){ ++k; if(!forced && keep<1.0 && (R.next()%1000000)>=keep*1000000) continue; bool allcaps = (k%5==0)||l.size()<=1; int ep=(int)(k%3);
+    if(forced) allcaps=false;
+    AW(true,k%2,[&]{ compose_events<ApiA>(ar,l,sp,nb,ep,allcaps); },[&]{ compose_events<ApiW>(ar,l,sp,nb,ep,allcaps); }); g.count(jq(l)+std::to_string(sp*2+nb),!l.empty()); if(k%3001==0) g.sample(J().str("list",showq(l)).num("sp",sp).num("nb",nb).done()); } }
   // dissection of every arrangement of & = a %41 + up to length 5 (6 thorough), plus random
   { std::vector<Text> toks={T("&"),T("="),T("a"),T("%41"),T("+"),T("%0D%0A"),T("%")}; int DL=g.thorough?6:4; std::vector<Text> ins;
     for(int len=0;len<=DL;++len){ std::vector<int> ix(len,0); while(true){ Text t; for(int i=0;i<len;++i) t.insert(t.end(),toks[ix[i]].begin(),toks[ix[i]].end()); ins.push_back(t); int i=len-1; while(i>=0&&++ix[i]==(int)toks.size()){ ix[i]=0; --i; } if(i<0) break; } }
